@@ -133,7 +133,13 @@ def ops_for(typ, case):
 def do_op(nfc, w, tag, op, case, arg):
     """returns a comparable result"""
     if op == "activate":
-        t = w.restart()
+        # the tag leaves and re-enters the field; the fault script stays armed (World.restart() would clear it), so the
+        # activation commands (RATS, ATTRIB, READ, ...) run under the injected errors
+        fate = w.device.fate
+        w.device.mute()
+        w.device.put_back()
+        w.device.fate = fate
+        t = w.discover()
         return type(t).__name__
     if op == "ndef_read":
         t = tag.ndef
@@ -395,6 +401,10 @@ def scenario(sim, params, nfc, typ, case, fixed_os):
         if within and r["fired"] > 0 and (any(x in sector_select for x in range(p, p + b)) or
                                           (executed and any(x in sector_select1 for x in range(p, p + b)))):
             sim.probe("sector_select.outcome_type_only")
+        elif within and r["fired"] > 0 and op == "activate":
+            # activation sends each of its commands once and takes an error as "no such tag / product": it returns None or
+            # a more generic tag class and the application polls again; only the outcome type is judged (no exception)
+            sim.probe("activate.outcome_type_only")
         elif within and r["fired"] > 0 and executed and op in NON_IDEMPOTENT and typ in VENDOR:
             sim.probe("non_idempotent.outcome_type_only")
         elif within and r["fired"] > 0:
